@@ -172,12 +172,16 @@ func (cb *CircuitBreaker) beforeRequest() error {
 			vhook.Yield("cb.before.upgrade")
 			cb.mutex.Lock()
 			// Double-check state hasn't changed
+			var notify func()
 			if cb.state == StateOpen && cb.nextAttempt.Before(now) {
-				cb.setState(StateHalfOpen)
+				notify = cb.setState(StateHalfOpen)
 				cb.requestCount = 0
 				cb.successCount = 0
 			}
 			cb.mutex.Unlock()
+			if notify != nil {
+				notify()
+			}
 			return nil
 		}
 		return ErrCircuitBreakerOpen
@@ -203,8 +207,20 @@ func (cb *CircuitBreaker) beforeRequest() error {
 func (cb *CircuitBreaker) afterRequest(success bool) {
 	vhook.Yield("cb.after.enter")
 	cb.mutex.Lock()
-	defer cb.mutex.Unlock()
+	notify := cb.recordResult(success)
+	cb.mutex.Unlock()
 
+	// Notify outside the lock: the callback may call back into the breaker
+	// (State, Counts) and must not block request processing.
+	if notify != nil {
+		notify()
+	}
+}
+
+// recordResult updates counters and state (must be called with the mutex held).
+// It returns the state-change notification to deliver after unlocking, if any.
+func (cb *CircuitBreaker) recordResult(success bool) func() {
+	var notify func()
 	now := time.Now()
 
 	if success {
@@ -215,7 +231,7 @@ func (cb *CircuitBreaker) afterRequest(success bool) {
 		case StateHalfOpen:
 			cb.successCount++
 			if cb.successCount >= cb.successThreshold {
-				cb.setState(StateClosed)
+				notify = cb.setState(StateClosed)
 				cb.failureCount = 0
 			}
 		}
@@ -226,26 +242,31 @@ func (cb *CircuitBreaker) afterRequest(success bool) {
 		switch cb.state {
 		case StateClosed:
 			if cb.failureCount >= cb.failureThreshold {
-				cb.setState(StateOpen)
+				notify = cb.setState(StateOpen)
 				cb.nextAttempt = now.Add(cb.timeout)
 			}
 		case StateHalfOpen:
-			cb.setState(StateOpen)
+			notify = cb.setState(StateOpen)
 			cb.nextAttempt = now.Add(cb.timeout)
 		}
 	}
+	return notify
 }
 
-// setState changes the circuit breaker state and calls the callback
-func (cb *CircuitBreaker) setState(state State) {
+// setState changes the circuit breaker state (must be called with the mutex
+// held) and returns the callback invocation to run after the mutex is released.
+func (cb *CircuitBreaker) setState(state State) func() {
 	if cb.state == state {
-		return
+		return nil
 	}
 
 	prev := cb.state
 	cb.state = state
 
-	if cb.onStateChange != nil {
+	if cb.onStateChange == nil {
+		return nil
+	}
+	return func() {
 		cb.onStateChange(cb.name, prev, state)
 	}
 }
